@@ -101,6 +101,10 @@ def eval_all(cases, jobs=16):
     for k in range(0, len(leaves), nl):
         shards.append(("Leaf_%d" % (k // nl), leaves[k:k + nl]))
     idx = dict(shards)
+    d = os.path.join(corr.WORK, "C10")
+    for f in os.listdir(d):      # shard files of the previous run
+        if re.match(r"(Doc|Leaf|Shard)_", f):
+            os.remove(os.path.join(d, f))
     codes, errors = {}, []
     with cf.ThreadPoolExecutor(max_workers=jobs) as ex:
         for name, rc, out in ex.map(_run_shard, [(n, [cases[i]["coq"] for i in ids]) for n, ids in shards]):
